@@ -215,3 +215,51 @@ func H_C09_avail() {
 	delta := int(t.available[i]) - int(avBefore)
 	vAssert(delta == vIte(hasAfter, 1, 0)-vIte(hadBefore, 1, 0), "availability follows the advertised set")
 }
+
+// H_C09_avail2: two advertisement messages handled back to back BEFORE the torrent processes
+// the events of the first (events in transit), then everything is drained: the law must hold
+// for the pair (catches events that alias the peer's live state). Parameter first: 1 Bitfield,
+// 2 HaveAll; second: 0 Have, 4 DontHave.
+func H_C09_avail2() {
+	total := vI64("total")
+	maxp := 8
+	vAssume(total >= 1 && total <= int64(maxp)*16384)
+	t := &Torrent{Hash: make([]byte, 20), requested: Requested{pieces: make(map[uint32]*RequestedPiece)}}
+	t.Pieces.MetadataComplete(16384, total)
+	np := t.Pieces.Num()
+	t.inFlight = make([]uint8, np)
+	t.infoComplete = 1
+	t.Event = make(chan peer.TorEvent, 512)
+	t.Done = make(chan struct{})
+	p := peer.VNewPeer(&t.Pieces, t.Event)
+	t.peers = []*peer.Peer{p}
+	peer.VSetFast(p, true)
+	t.available = make([]uint16, 8)
+	for k := 0; k < maxp; k++ {
+		a := vU16(vAvNames[k])
+		vAssume(a < 60000)
+		t.available[k] = a
+	}
+	i := vInt("i")
+	vAssume(i >= 0 && i < np)
+	avBefore := t.available[i]
+	var err error
+	if vParam("first") == 1 {
+		err = peer.VHandleMessage(p, protocol.Bitfield{Bitfield: vBytes("bf", 1)})
+	} else {
+		err = peer.VHandleMessage(p, protocol.HaveAll{})
+	}
+	vAssume(err == nil)
+	if vParam("second") == 0 {
+		err = peer.VHandleMessage(p, protocol.Have{Index: vU32("mi")})
+	} else {
+		err = peer.VHandleMessage(p, protocol.ExtendedDontHave{Subtype: 3, Index: vU32("mi")})
+	}
+	vAssert(peer.VBacklog(p) == 0, "events fit the torrent's queue")
+	vDrain(t)
+	if err == nil {
+		vReach("both-accepted")
+	}
+	delta := int(t.available[i]) - int(avBefore)
+	vAssert(delta == vIte(peer.VHas(p, i), 1, 0), "availability follows the advertised set across events in transit")
+}
